@@ -560,7 +560,10 @@ class URL:
         """Cache the netloc parts of the URL."""
         c = self._cache
         split_loc = split_netloc(self._netloc)
-        c["raw_user"], c["raw_password"], c["raw_host"], c["explicit_port"] = split_loc
+        c["raw_user"], c["raw_password"], host, c["explicit_port"] = split_loc
+        # An authority with an empty host ("//:77", "//user@") has host "", the
+        # value encode_url() pre-fills; None is for URLs without an authority.
+        c["raw_host"] = "" if host is None and self._netloc else host
 
     def is_absolute(self) -> bool:
         """A check for absolute URLs.
